@@ -1,7 +1,8 @@
 """C12 - a model's result does not depend on what happened earlier in the process.
 
 For every observed program B and every history h over an alphabet of 'previous programs' (solved, solved twice, solved
-with a heuristic / on the MOSEK path, abandoned unsolved, failed, raised half-way, evaluated module-level null objects)
+with a heuristic / on the MOSEK path, abandoned unsolved, failed, raised half-way, evaluated module-level null objects and
+accumulated long sums on them with +=, a model fragment built with the public constructors before any PEP() exists)
 up to a length bound, `h ; B` is executed in ONE process (a fork of a pristine interpreter that has imported the library
 and run nothing) and the canonical dump of B - the exact solver input (cvxpy: the stuffed problem data handed to
 CLARABEL, byte for byte; MOSEK path: the stand-in's call log with exact floats), the names of the constraints sent and the
@@ -88,12 +89,30 @@ def prev_program(name):
                 o.eval()
             except Exception:
                 pass
+        # long sums accumulated with += starting from the module-level null objects
+        tot, acc = null_expression, null_point
+        for k in range(2):
+            tot += c.exprs["dn"]
+            tot += 0.5 * c.exprs["d0"]
+            acc += c.points["x0"]
+        c.pep.add_constraint(tot + acc ** 2 <= 100)
+    elif name == "fragment":
+        # an abandoned model fragment built with the public constructors BEFORE any PEP() exists in the process
+        from PEPit import Point, Expression
+        from PEPit.functions import ConvexFunction, SmoothConvexFunction
+        from PEPit.block_partition import BlockPartition
+        x, e = Point(), Expression()
+        f, g = ConvexFunction(), SmoothConvexFunction(L=1.)
+        f.oracle(x)
+        (f + g).oracle(Point())
+        part = BlockPartition(2)
+        part.get_block(x, 0)
     else:
         raise KeyError(name)
 
 
 HISTORY_ALPHABET = ["gd", "block", "quad", "linop", "comp", "lmi", "qg", "abandon", "unbounded", "raises", "twice", "heur",
-                    "mosek", "nulls", "opts"]
+                    "mosek", "nulls", "opts", "fragment"]
 OBSERVED = ["gd", "block", "quad", "lmi", "comp", "nullsum", "lmi@mosek", "block@mosek", "qg", "support", "gd+logdet2", "lmi+trace",
             "block+logdet1@mosek"]
 
@@ -111,10 +130,12 @@ def observed_program(name, verbose):
         from PEPit.point import null_point
         from PEPit.expression import null_expression
         c = models.build(_spec("block"))
-        acc = null_point
+        acc, tot = null_point, null_expression
         for k in range(3):
-            acc = acc + c.partition.get_block(c.points["xn"], k)
-        c.pep.add_constraint((acc - c.points["xn"]) ** 2 + null_expression <= 0.5)
+            acc += c.partition.get_block(c.points["xn"], k)
+        tot += (acc - c.points["xn"]) ** 2
+        tot += null_expression
+        c.pep.add_constraint(tot <= 0.5)
         null_values = []
     else:
         c = models.build(_spec(base))
